@@ -437,7 +437,11 @@ def show(v, depth=0, limit=4):
     if isinstance(v, Rev):
         return "reversed(%s)" % s(v.arg)
     if isinstance(v, CallV):
-        return "%s(%s)" % (v.name, ", ".join(
+        recv = ""
+        if isinstance(v.func, V) and not isinstance(
+                v.func, (FuncRef, ClsRef, Sym, Const, Instance, Partial)):
+            recv = s(v.func) + "."
+        return "%s%s(%s)" % (recv, v.name, ", ".join(
             list(map(s, v.args)) +
             ["%s=%s" % (k, s(x)) for k, x in v.kwargs.items()]))
     if isinstance(v, Effect):
